@@ -145,6 +145,12 @@ func c01Connect(u *vfUnit, cfg c01Cfg) (*c01Env, error) {
 	var err error
 	if cfg.proxyK > 0 {
 		e.sess, e.px, err = vfConnectProxied(sc, cfg.proxyK, u.Rng.Fork(), opts...)
+		if err == nil && u.Index%3 == 1 {
+			// a third of the proxied units: DATA replies carry one more byte behind the data string
+			e.px.mu.Lock()
+			e.px.TrailDATA = true
+			e.px.mu.Unlock()
+		}
 	} else {
 		e.sess, err = vfConnect(sc, vfPipeOpts{}, opts...)
 	}
